@@ -270,8 +270,31 @@ def _basen(tier):
     if len(set(numerals)) != 62:
         res['error'] = 'alphabet characters are not distinct'
         return res
+    # the repository's own test vectors and boundary values through the real
+    # functions first (a witness here needs no solver)
+    rnd0 = random.Random(11)
+    for x in [0, 10, 2313, 23134223879243284, 61, 62, 2 ** 53 + 1,
+              2 ** 64 + 12345, 2 ** 77 - 1] + \
+            [rnd0.randrange(2 ** 77) for _ in range(50)]:
+        enc = utils.to_base_n(x, base=62, alphabet=numerals)
+        if utils.from_base_n(enc, base=62, alphabet=numerals) != x or \
+                len(enc) > 13:
+            res['violation'] = {'label': 'C15:base62_round_trip',
+                                'witness': {'n': x, 'encoded': enc},
+                                'info': None, 'trace': []}
+            res['custom_replayed'] = True
+            return res
     A = pyeval.Alphabet(numerals)
     n = z3.Int('n')
+    try:
+        pyeval.Evaluator(utils.to_base_n, unroll=13).run(
+            num=n, base=z3.IntVal(62), alphabet=A)
+    except NotImplementedError as e:
+        res['error'] = None
+        res['unknown'] = 1
+        res['exhausted'] = False
+        res['reached'] = {'source_construct_outside_the_translator': repr(e)}
+        return res
     ev = pyeval.Evaluator(utils.to_base_n, unroll=13)
     rets = ev.run(num=n, base=z3.IntVal(62), alphabet=A)
 
